@@ -9,6 +9,7 @@
 #include <stdint.h>
 #include <stddef.h>
 #include <zlib.h>
+#include <limits.h>
 
 int carquet_gzip_decompress(
     const uint8_t* src,
@@ -19,6 +20,9 @@ int carquet_gzip_decompress(
 
     if (!src || !dst || !dst_size) {
         return CARQUET_ERROR_INVALID_ARGUMENT;
+    }
+    if (src_size > UINT_MAX || dst_capacity > UINT_MAX) {
+        return CARQUET_ERROR_INVALID_ARGUMENT; /* zlib counters are 32-bit; single-shot call */
     }
 
     z_stream strm = {0};
@@ -54,6 +58,9 @@ int carquet_gzip_compress(
 
     if (!src || !dst || !dst_size) {
         return CARQUET_ERROR_INVALID_ARGUMENT;
+    }
+    if (src_size > UINT_MAX || dst_capacity > UINT_MAX) {
+        return CARQUET_ERROR_INVALID_ARGUMENT; /* zlib counters are 32-bit; single-shot call */
     }
 
     if (level < 1) level = 1;
